@@ -52,7 +52,7 @@ def _(c):
         "target_arg_in_hard_box": "forall(self.D, lambda j: self.variable_transformer.orig_lb[0][j] <= arg[j] and arg[j] <= self.variable_transformer.orig_ub[0][j])",
         "target_arg_feasible": "feasx(pt(arg))",
         "target_arg_is_image_of_x": "pteq(pt(arg), invt(pt(x)))",
-    }, top=["target_arg_in_hard_box", "target_arg_feasible"], props=["C01", "C02"])
+    }, top=["target_arg_in_hard_box", "target_arg_feasible"], props={"target_arg_in_hard_box": ("C01",), "target_arg_feasible": ("C02",), "target_arg_is_image_of_x": ("C01", "C02")})
     # ---- normal exit ----------------------------------------------------------------------------------------------
     c.ens("count", "self.func_count == old(self.func_count) + 1", top=True, props=["C03", "C10"])
     c.ens("one_target_call", "ghost.n_calls == old(ghost.n_calls) + 1", top=True, props=["C03"])
@@ -68,7 +68,7 @@ def _(c):
           "pteq(row(self.X_orig, self.Xn), invt(pt(x))) and self.Y[self.Xn][0] == result[0] and self.Y_orig[self.Xn][0] == result[0] and result[2] == self.Xn)",
           top=True, props=["C04", "C12", "C19"])
     c.ens("earlier_points_never_change", "forall(old(self.Xn) + 1, lambda i: pteq(row(self.X, i), row(old(self.X), i)) "
-          "and pteq(row(self.X_orig, i), row(old(self.X_orig), i)))", top=True, props=["C04", "C12", "C19", "C01"])
+          "and pteq(row(self.X_orig, i), row(old(self.X_orig), i)))", top=True, props=["C04", "C12", "C19"])
     c.ens("earlier_values_kept", "implies(self.Xn == old(self.Xn) + 1, forall(old(self.Xn) + 1, lambda i: "
           "self.Y[i][0] == old(self.Y)[i][0] and self.Y_orig[i][0] == old(self.Y_orig)[i][0]))",
           top=True, props=["C04", "C12", "C19"])
@@ -83,7 +83,7 @@ def _(c):
     c.may_raise("TargetError", ensures=dict(XENS, flag="truthy(ghost.target_raised)"))
     c.may_raise("ValueError", ensures=dict(XENS, flag="not truthy(ghost.target_raised)"))
     c.may_raise("AssertionError", ensures=dict(XENS, flag="not truthy(ghost.target_raised)"))
-    c.req("no_pending_failure", "not truthy(ghost.target_raised)")
+    c.req("no_pending_failure", "not truthy(ghost.target_raised)", props=["C10"])
     c.exc_class_when("TargetError", "truthy(ghost.target_raised)", "target_exception_propagates_unchanged", props=["C10"])
     c.exc_ens("failed_call_not_counted", "self.func_count == old(self.func_count)", top=True, props=["C10"])
     c.exc_ens("nothing_logged", "self.Xn == old(self.Xn) and same(self.Y, old(self.Y)) and same(self.X, old(self.X)) and same(self.X_flag, old(self.X_flag))",
@@ -114,6 +114,7 @@ def _(c):
           "and result[0] == fval_orig and forall(self.Xn + 1, lambda i: pteq(row(self.X, i), row(old(self.X), i)) and pteq(row(self.X_orig, i), row(old(self.X_orig), i))))",
           top=True, props=["C12"])
     c.ens("points_kept", "count_true(self.X_flag) >= old(count_true(self.X_flag))")
+    c.ens("norecord_keeps_xn", "implies(not truthy(record_duplicate_data), self.Xn == old(self.Xn))")
     c.ens("new_point_recorded", "implies(self.Xn == old(self.Xn) + 1, "
           "forall(self.D, lambda j: self.X[self.Xn][j] == x[j] and self.X_orig[self.Xn][j] == x_orig[j]) and self.Y[self.Xn][0] == fval_orig "
           "and self.Y_orig[self.Xn][0] == fval_orig and result[0] == fval_orig and result[1] == self.Xn and self.n_evals[self.Xn][0] >= 1)",
